@@ -181,7 +181,7 @@ def build(P):
         elif b"x = y" in c.prog and b"TRUE " not in r.out: msgs.append("REAL did not read back bit-exactly: %r" % r.out[:80])
         return msgs
 
-    C13 = dict(cases=c13_cases, oracle=c13_oracle, builds=["normal", "san"], nontrivial=lambda c, r, m: b"same " in r.out or "mismatch" in c.meta,
+    C13 = dict(cases=c13_cases, model_is_oracle=("out", "exit", "files", "termination"), oracle=c13_oracle, builds=["normal", "san"], nontrivial=lambda c, r, m: b"same " in r.out or "mismatch" in c.meta,
                rule="PUTRECORD then GETRECORD of: all 256 CHAR codes alone / first / middle / last field; strings over {LF,#,blank,0,A,\"} up to length 3 (quick) / 4 and random byte strings; "
                     "boundary and random INTEGER; REAL values compared inside the language (x = y) and through the file bytes; BOOLEAN, DATE (also never assigned), enum, arrays of six "
                     "element types, random records with nested records and up to 3 array fields; each as record 1, 2 or last among filler records, read back in the same session and after "
@@ -315,7 +315,7 @@ def build(P):
             if msgs: break
         return msgs
 
-    C14 = dict(cases=c14_cases, oracle=c14_oracle, nontrivial=lambda c, r, m: True,
+    C14 = dict(cases=c14_cases, model_is_oracle=("out", "exit", "files", "termination"), oracle=c14_oracle, nontrivial=lambda c, r, m: True,
                rule="histories over {OPEN, CLOSE, SEEK k (0..4), PUT single-line, PUT multi-line, GET} on one file: a sample of depth 4 (quick) / all of depth 6 up to a cap (thorough), "
                     "each followed by close, reopen and a read of record 1, as REPL sessions compared with the model; random histories of 10..60 steps on two files judged step by step "
                     "by an explicit list-plus-cursor model in the harness; files written in advance and loaded by a fresh process (records with embedded line breaks), SEEK to n+2 rejected")
